@@ -36,10 +36,10 @@ def _fmt(x):
     return repr(x / U)
 
 
-def _box_cmd(req, cols):
+def _box_cmd(req, cols, cmd="box"):
     # cols = [a, b, c] lattice vectors; matrix entry (i,j) = cols[j][i]
     m = [cols[j][i] for i in range(3) for j in range(3)]
-    return "box %s %s" % (req, " ".join(_fmt(v) for v in m))
+    return "%s %s %s" % (cmd, req, " ".join(_fmt(v) for v in m))
 
 
 def _pair_cmd(pi, pj):
@@ -51,6 +51,8 @@ def _lat(tokens):
     raw = [float(t) * U for t in tokens]
     out = []
     for v in raw:
+        if v != v or v in (float("inf"), float("-inf")):
+            return None, raw
         k = round(v)
         if abs(v - k) > 1e-9 * max(1.0, abs(v)):
             return None, raw
@@ -105,6 +107,13 @@ class _Checker:
         self.drift = 0
         self.stats = {"vectors": 0, "pairs": 0, "tie": 0, "nonexact": 0, "far": 0, "boxes": 0}
         self.seen = set()
+        self.note = ""
+        self.prefix = ""        # "hist:" while a history of setBox calls is replayed
+        self.rep = None         # replay object overriding the per-vector one (the whole history)
+
+    def _viol(self, key, text, rep):
+        return self.ctx.violation(self.prefix + key, (self.note + text) if self.prefix else text,
+                                  self.rep if self.rep is not None else rep)
 
     # ---- replay of TLC vectors ---------------------------------------------------------
     def vectors(self, vecs):
@@ -129,7 +138,7 @@ class _Checker:
             cols = rs[0]["box"]
             self.stats["boxes"] += 1
             if gi in crashes:
-                ctx.violation("%s:crash" % typ, "driver died: " + crashes[gi], {"vector": rs[0]})
+                self._viol("%s:crash" % typ, "driver died: " + crashes[gi], {"vector": rs[0]})
                 continue
             out = results[gi]
             self._box_checks(req, typ, cols, rs[0], out)
@@ -148,27 +157,27 @@ class _Checker:
         zero = all(v == 0 for c in cols for v in c)
         rep = {"vector": rec}
         if isinstance(b, str):
-            ctx.violation("setBox:%s:exception" % req, "setBox threw: %s" % b, rep)
+            self._viol("setBox:%s:exception" % req, "setBox threw: %s" % b, rep)
             return
         if b["type"] != typ:
-            ctx.violation("setBox:%s:type" % req, "getBoxType()=%s, expected %s for box %s requested %s" %
+            self._viol("setBox:%s:type" % req, "getBoxType()=%s, expected %s for box %s requested %s" %
                           (b["type"], typ, cols, req), rep)
         m = [cols[j][i] / U for i in range(3) for j in range(3)]
         if b["box"] != m:
-            ctx.violation("setBox:getBox", "getBox() returned %s after setBox(%s)" % (b["box"], m), rep)
+            self._viol("setBox:getBox", "getBox() returned %s after setBox(%s)" % (b["box"], m), rep)
         if not (typ == "open" and not zero):          # volume of an explicitly open box: not specified
             if not vlib.close(b["vol"] * U ** 3, rec["vol"], 1e-12, 1e-12):
-                ctx.violation("BoxVolume:%s" % typ, "BoxVolume()=%r nm^3 = %r lattice^3, expected %d for box %s" %
+                self._viol("BoxVolume:%s" % typ, "BoxVolume()=%r nm^3 = %r lattice^3, expected %d for box %s" %
                               (b["vol"], b["vol"] * U ** 3, rec["vol"], cols), rep)
         if typ != "open":
             ln = out[1][0] if out[1] else "exc no output"
             if not ln.startswith("short "):
-                ctx.violation("ShortestBoxSize:%s:exception" % typ, ln, rep)
+                self._viol("ShortestBoxSize:%s:exception" % typ, ln, rep)
             else:
                 h = float(ln.split()[1]) * U
                 # integer identity  h^2 * |n|^2 = V^2  for the face with the largest normal
                 if not (h > 0 and vlib.close(h * h * rec["hn2"], float(rec["vol"]) ** 2, 1e-9, 0)):
-                    ctx.violation("ShortestBoxSize:%s" % typ,
+                    self._viol("ShortestBoxSize:%s" % typ,
                                   "ShortestBoxSize()=%r lattice units: h^2*|n|^2=%r but V^2=%d (box %s)" %
                                   (h, h * h * rec["hn2"], rec["vol"] ** 2, cols), rep)
 
@@ -190,12 +199,12 @@ class _Checker:
             ctx.nontriv(("v", json.dumps(r["box"]), r["req"], tuple(r["r"])))
         mins = set(tuple(v) for v in r["mins"])
         nmins = set(tuple(-x for x in v) for v in mins)
-        rep = {"vector": r}
+        rep = self.rep if self.rep is not None else {"vector": r}
         first_ok = True
         for n, (p, o) in enumerate(zip(r["pairs"], obs)):
             far = ":far" if n == 2 else ""
             if isinstance(o, str):
-                ctx.violation("%s:BCShortestConnection:exception" % typ, "%s on %s" % (o, p), rep)
+                self._viol("%s:BCShortestConnection:exception" % typ, "%s on %s" % (o, p), rep)
                 first_ok = False if n == 0 else first_ok
                 continue
             f, b, g = o["f"][0], o["b"][0], o["g"][0]
@@ -205,14 +214,14 @@ class _Checker:
                                                                               o["f"][1], o["b"][1], o["g"][1])
             if not per:
                 if f != algo or b != algob:
-                    ctx.violation("open:BCShortestConnection:not-plain-difference", what, rep)
+                    self._viol("open:BCShortestConnection:not-plain-difference", what, rep)
                 if g != algo:
-                    ctx.violation("open:getDist:not-plain-difference", what, rep)
+                    self._viol("open:getDist:not-plain-difference", what, rep)
                 continue
             if n > 0 and not first_ok:
                 continue                      # the unshifted pair already failed; reported there
             if None in (f, b, g):
-                ctx.violation("%s:BCShortestConnection:off-lattice" % typ, "result not on the integer lattice: " + what, rep)
+                self._viol("%s:BCShortestConnection:off-lattice" % typ, "result not on the integer lattice: " + what, rep)
                 if n == 0:
                     first_ok = False
                 continue
@@ -221,20 +230,20 @@ class _Checker:
                 if okf and okb and okg:
                     continue
                 if n > 0:
-                    ctx.violation("%s:BCShortestConnection:shift-variance%s" % (typ, far),
+                    self._viol("%s:BCShortestConnection:shift-variance%s" % (typ, far),
                                   "shifting the points by whole box vectors changed the result: %s; shortest images %s"
                                   % (what, sorted(mins)), rep)
                     continue
                 first_ok = False
                 if not okf:
                     pending.append(({"box": r["box"], "typ": typ, "r": list(rp), "d": list(f)},
-                                    {"kind": "exact", "typ": typ, "what": what, "rep": rep, "d2": r["d2"]}))
+                                    {"kind": "exact", "typ": typ, "what": what, "rep": rep, "d2": r["d2"], "note": self.note}))
                 elif not okb:
-                    ctx.violation("%s:BCShortestConnection:antisymmetry" % typ,
+                    self._viol("%s:BCShortestConnection:antisymmetry" % typ,
                                   "swapped points do not give a shortest image of -r: %s; shortest images of r %s"
                                   % (what, sorted(mins)), rep)
                 else:
-                    ctx.violation("%s:getDist:differs" % typ, "getDist is not a shortest image: %s; shortest %s"
+                    self._viol("%s:getDist:differs" % typ, "getDist is not a shortest image: %s; shortest %s"
                                   % (what, sorted(mins)), rep)
                 continue
             # triclinic beyond half the shortest height: only lattice membership, antisymmetry and
@@ -246,19 +255,19 @@ class _Checker:
                 first_ok = False
             if not r["tie"]:
                 if b != tuple(-x for x in f):
-                    ctx.violation("%s:BCShortestConnection:antisymmetry" % typ, "b != -f off a tie: " + what, rep)
+                    self._viol("%s:BCShortestConnection:antisymmetry" % typ, "b != -f off a tie: " + what, rep)
                     continue
                 if n > 0 and obs[0]["f"][0] is not None and f != obs[0]["f"][0]:
-                    ctx.violation("%s:BCShortestConnection:shift-variance%s" % (typ, far),
+                    self._viol("%s:BCShortestConnection:shift-variance%s" % (typ, far),
                                   "shifted pair gives %s, unshifted %s: %s" % (f, obs[0]["f"][0], what), rep)
                     continue
             if g != f:
-                ctx.violation("%s:getDist:differs" % typ, "getDist != BCShortestConnection: " + what, rep)
+                self._viol("%s:getDist:differs" % typ, "getDist != BCShortestConnection: " + what, rep)
                 continue
             pending.append(({"box": r["box"], "typ": typ, "r": list(rp), "d": list(f)},
-                            {"kind": "loose", "typ": typ, "what": what, "rep": rep}))
+                            {"kind": "loose", "typ": typ, "what": what, "rep": rep, "note": self.note}))
             pending.append(({"box": r["box"], "typ": typ, "r": [-x for x in rp], "d": list(b)},
-                            {"kind": "loose", "typ": typ, "what": what, "rep": rep}))
+                            {"kind": "loose", "typ": typ, "what": what, "rep": rep, "note": self.note}))
 
     def _resolve(self, pending):
         """TLC classifies the observations that are not what the specification listed."""
@@ -275,15 +284,61 @@ class _Checker:
         for i, (rec, info) in enumerate(pending):
             v = verdicts[i]
             typ = info["typ"]
+            self.rep, self.note = None, info.get("note", "")
             if not v["inlat"]:
-                ctx.violation("%s:BCShortestConnection:off-lattice" % typ,
+                self._viol("%s:BCShortestConnection:off-lattice" % typ,
                               "result - r is not an integer combination of the box vectors: " + info["what"], info["rep"])
             elif info["kind"] == "exact":
-                ctx.violation("%s:BCShortestConnection:not-shortest" % typ,
+                self._viol("%s:BCShortestConnection:not-shortest" % typ,
                               "result is a periodic image but not a shortest one (|d|^2 should be %s): %s"
                               % (info["d2"], info["what"]), info["rep"])
             else:
                 self.drift += 1     # differs from the transcription, satisfies the statement
+
+    # ---- mode H: histories of setBox calls on ONE Topology ---------------------------------------------
+    def histories(self, hists):
+        """every call must leave the Topology as a fresh one with that last box would be: the
+        expectation of each step is the mode-L expectation (from TLC) for its box"""
+        ctx = self.ctx
+        items = []
+        for i, hrec in enumerate(hists):
+            cmds = ["newtop"]
+            for st in hrec["h"]:
+                cmds.append(_box_cmd(st["req"], st["box"], "setbox"))
+                if st["typ"] != "open":
+                    cmds.append("short")
+                for p in st["probes"]:
+                    cmds.append(_pair_cmd(p["pairs"][0]["i"], p["pairs"][0]["j"]))
+            items.append((i, cmds))
+        results, crashes = vlib.run_items(self.exe, items)
+        self.prefix = "hist:"
+        pending = []
+        try:
+            for i, hrec in enumerate(hists):
+                ctx.traces += 1
+                self.stats["histories"] = self.stats.get("histories", 0) + 1
+                self.rep = {"history": hrec}
+                kinds = [st["typ"] for st in hrec["h"]]
+                if len(set(kinds)) > 1:
+                    ctx.nontriv(("hist", json.dumps([[st["box"], st["req"]] for st in hrec["h"]])))
+                if i in crashes:
+                    self._viol("crash", "driver died: " + crashes[i], None)
+                    continue
+                out = results[i]
+                k = 1
+                for n, st in enumerate(hrec["h"]):
+                    self.note = "after setBox history %s (call %d): " % (
+                        [(s_["req"], s_["typ"], s_["box"]) for s_ in hrec["h"][:n + 1]], n + 1)
+                    nshort = 1 if st["typ"] != "open" else 0
+                    self._box_checks(st["req"], st["typ"], st["box"], st, out[k:k + 1 + nshort])
+                    k += 1 + nshort
+                    for p in st["probes"]:
+                        vec = dict(p, box=st["box"], req=st["req"], typ=st["typ"])
+                        self._vector(vec, [_parse_pair(out[k])], pending)
+                        k += 1
+            self._resolve(pending)
+        finally:
+            self.prefix, self.rep, self.note = "", None, ""
 
     # ---- general boxes: volume only -----------------------------------------------------------
     def volumes(self, vecs):
@@ -412,6 +467,8 @@ def run(ctx):
         obj = json.load(open(ctx.replay))["replay"]
         if "vector" in obj:
             chk.vectors([obj["vector"]])
+        elif "history" in obj:
+            chk.histories([obj["history"]])
         elif "volume_vector" in obj:
             chk.volumes([obj["volume_vector"]])
         else:
@@ -446,6 +503,24 @@ def run(ctx):
     # vacuity: the interesting classes must occur
     if not (st["tie"] > 0 and st["nonexact"] > 0 and st["far"] > 0):
         raise vlib.InfraError("vacuous vector set: %s" % st)
+
+    # ---- 1b. mode H: histories of setBox calls on one Topology ------------------------------------
+    cfg = "MCPbcHistQuick.cfg" if quick else "MCPbcHistThorough.cfg"
+    res = vlib.tlc("pbc", "MCPbcHist", cfg=cfg, timeout=1200)
+    vlib.tlc_must_hold(res, "PbcHist (expectation of a call depends on the last box only; probes certified)")
+    ctx.add_tlc(cfg[:-4], res)
+    hists = res.records
+    if not hists:
+        raise vlib.InfraError("no setBox histories exported")
+    chk.histories(hists)
+    ctx.sample({"setBox_history": hists[len(hists) // 2]})
+    if not quick:
+        res = vlib.tlc("pbc", "MCPbcHist", cfg="MCPbcHistSim.cfg", timeout=1200, simulate=300, depth=7, workers=4,
+                       seed=ctx.seed)
+        vlib.tlc_must_hold(res, "PbcHist simulation")
+        ctx.add_tlc("MCPbcHistSim(simulate)", res)
+        chk.histories(res.records)
+    del hists, res
 
     # ---- 2. volume of general boxes ---------------------------------------------------------------
     res = vlib.tlc("pbc", "MCPbcVolume", cfg="MCPbcVolume.cfg", timeout=600)
